@@ -44,6 +44,7 @@ impl<L: Language, N: Analysis<L>> EGraph<L, N> {
             let pc = self.pc_find(&self.refl_pc(c));
 
             self.handle_congruence(pc);
+            self.rebuild_called_from_add();
 
             let c_a = self.mk_syn_applied_id(c, fresh_to_old.clone());
             if CHECKS {
